@@ -533,15 +533,21 @@ func PrepareForPackager(info *Info, packager string) (err error) {
 		return ErrFieldEmpty{"version"}
 	}
 
-	info.Contents, err = files.PrepareForPackager(
+	contents, err := files.PrepareForPackager(
 		info.Contents,
 		info.Umask,
 		packager,
 		info.DisableGlobbing,
 		info.MTime,
 	)
+	if err != nil {
+		// keep the contents: packaging the same info again must not succeed
+		// with an empty payload
+		return err
+	}
+	info.Contents = contents
 
-	return err
+	return nil
 }
 
 // Validate the given Info and returns an error if it is invalid. Validate will
